@@ -973,8 +973,9 @@ def _readUrl(  # noqa: C901
                     # at least in GAE
                     decodedCssText = content.decode(encoding if encoding else 'utf-8')
 
-            except (UnicodeDecodeError, LookupError) as e:
-                # (LookupError: e.g. an @charset rule naming an unknown encoding)
+            except (UnicodeError, LookupError) as e:
+                # (LookupError: e.g. an @charset rule naming an unknown encoding
+                # or one that is no text encoding)
                 log.warn(e, neverraise=True)
                 decodedCssText = None
 
